@@ -240,6 +240,54 @@ Theorem one_copy_v5 : forall loc be version asz pos tbl body offs,
     body = concat bss /\ offs = offsets_from pos bss.
 Proof. exact lwp_one_copy_v5. Qed.
 
+(* ------------------------------------------------------------------ end to end: add ... add; Unit::write; read *)
+
+(* Any sequence of unit.ranges.add / unit.locations.add calls followed by Unit::write (DWARF 5): for the k-th
+   added list, the id returned by add indexes an offset (offsets.get(id)) at which the section decodes to exactly
+   that list, which therefore means what was written, for every base address. Combines dedup and write_read_v5. *)
+Theorem added_lists_read_back_v5 :
+  forall (dbg dbg' be fmt64 : bool) (asz : N) attrs (rstart lstart : N)
+    (rxs : list (list wrange)) (lxs : list (list wloc)) rtbl rids ltbl lids rb ro lb lo (rsec lsec : list byte) (base : N),
+  rng_add_all [] rxs = (rtbl, rids) -> loc_add_all [] lxs = (ltbl, lids) ->
+  unit_write_lists dbg be fmt64 5 asz attrs rstart lstart rtbl ltbl = Ok ((rb, ro), (lb, lo)) ->
+  N.of_nat (length rsec) = rstart -> N.of_nat (length lsec) = lstart -> unit_wf rtbl ltbl ->
+  (forall k x, nth_error rxs k = Some x ->
+     exists id o es rest, nth_error rids k = Some id /\ offsets_get ro id = Ok o /\
+       dec5 dbg' false be asz (at_offset o (rsec ++ rb)) = Ok (es, rest) /\
+       ents_of (map loc_of_range x) = Some es /\
+       meaning_rng asz base x = Some (map fst (resolve asz base es))) /\
+  (forall k x, nth_error lxs k = Some x ->
+     exists id o es rest, nth_error lids k = Some id /\ offsets_get lo id = Ok o /\
+       dec5 dbg' true be asz (at_offset o (lsec ++ lb)) = Ok (es, rest) /\
+       ents_of x = Some es /\
+       meaning_loc asz base x = Some (resolve asz base es)).
+Proof. exact lwp_added_lists_read_back_v5. Qed.
+
+(* The same for DWARF 2-4 outside the known class, relative to the base address the reader derives from the root. *)
+Theorem added_lists_read_back_v4 :
+  forall (dbg dbg' be fmt64 : bool) (version asz : N) attrs (rstart lstart : N)
+    (rxs : list (list wrange)) (lxs : list (list wloc)) rtbl rids ltbl lids rb ro lb lo (rsec lsec : list byte),
+  rng_add_all [] rxs = (rtbl, rids) -> loc_add_all [] lxs = (ltbl, lids) ->
+  unit_write_lists dbg be fmt64 version asz attrs rstart lstart rtbl ltbl = Ok ((rb, ro), (lb, lo)) ->
+  2 <= version <= 4 ->
+  N.of_nat (length rsec) = rstart -> N.of_nat (length lsec) = lstart -> unit_wf rtbl ltbl ->
+  (forall k x, nth_error rxs k = Some x -> ~ marker_clash asz (map loc_of_range x) ->
+     exists id o ps rest, nth_error rids k = Some id /\ offsets_get ro id = Ok o /\
+       dec4 dbg' false be asz (at_offset o (rsec ++ rb)) = Ok (ps, rest) /\
+       meaning_rng asz (unit_base attrs) x = Some (map fst (resolve asz (unit_base attrs) ps))) /\
+  (forall k x, nth_error lxs k = Some x -> ~ marker_clash asz x ->
+     exists id o ps rest, nth_error lids k = Some id /\ offsets_get lo id = Ok o /\
+       dec4 dbg' true be asz (at_offset o (lsec ++ lb)) = Ok (ps, rest) /\
+       meaning_loc asz (unit_base attrs) x = Some (resolve asz (unit_base attrs) ps)).
+Proof. exact lwp_added_lists_read_back_v4. Qed.
+
+Example added_lists_read_back_ex :
+  exists rtbl rids out,
+    rng_add_all [] [[ROffsetPair 1 2]; [ROffsetPair 1 2]; [RStartEnd (AConst 3) (AConst 4)]] = (rtbl, rids) /\
+    rids = [0; 0; 1]%nat /\
+    unit_write_lists true false true 5 8 [] 0 0 rtbl [] = Ok out.
+Proof. do 3 eexists. split; [vm_compute; reflexivity|]. split; [reflexivity|vm_compute; reflexivity]. Qed.
+
 (* ------------------------------------------------------------------ (6) base_from_root *)
 
 (* the writer's have_base_address flag: the root DIE has a DW_AT_low_pc whose value is anything other than
